@@ -208,3 +208,7 @@ def independent(a, b):
     if isinstance(a, np.ndarray) and isinstance(b, np.ndarray):
         return a is not b and not np.shares_memory(a, b)
     return True
+
+
+def card(S):
+    return len(set(S))
